@@ -565,10 +565,12 @@ LATTICE_RULE = ("font support lattice (tools/props/_lattice.py): every character
                 "every space separator, one letter per script x cmap-only fonts for every subset of {c, the halves and inner "
                 "pieces of its decomposition, U+0020, U+2010, U+2011, U+25CC} in which c is mapped x one script per shaper "
                 "(default, arabic, hebrew, thai, hangul, indic, khmer, myanmar, use; dispatch read from the compiled crate) and "
-                "the script of c's block x {c, c + mark, base + c, base + c + mark}; kept: the cases where the shaper's "
+                "the script of c's block x {c, c + mark, base + c, base + c + mark, unmapped + c, unmapped + c + mark} x the script's "
+                "own direction / top-to-bottom; kept: the cases where the shaper's "
                 "normalization mode does not prefer the decomposition of c (it short-circuits, or the font supports no "
                 "candidate); oracle: every non-mark, non-default-ignorable mapped character whose decomposition is not "
-                "preferred appears as its cmap glyph with the glyph's hmtx advance and zero offsets")
+                "preferred appears as its cmap glyph with the glyph's hmtx advance and zero offsets (vertical: y_advance "
+                "-(ascender - descender), offsets (-advance / 2, -ascender))")
 
 
 def run(ctx):
@@ -614,7 +616,7 @@ def run(ctx):
                          classify=C09.classify_run)
     L.promote_norm_run(ctx, shim, env, dis, ctx.budget(40, 300), [own600], "norm-run-mapped")
     L.search(ctx, shim, env, ctx.rng("lattice"), ("decomposable", "plain"), lattice_keep(env), [L.judge_own_glyph],
-             LATTICE_RULE)
+             LATTICE_RULE, dirs=("-", "t"))
     macroman_search(ctx, shim)
     default_search(ctx, shim, chars, ctx.rng("default"), ctx.budget(500, 40000))
     cmap_family_search(ctx, shim, chars, ctx.rng("cmapfamsearch"), ctx.budget(250, 12000))
